@@ -13,13 +13,17 @@ import (
 // the functions of a package whose key matches the regexp; prints what the
 // engine could not model. Debugging aid, not a registered check.
 func RunSweep(repo, verifDir, pkg, pattern string) int {
-	dirs := append(contractDirs(repo), pkg)
-	prog, err := Load(repo, dirs)
+	_ = pkg
+	prog, err := Load(repo, []string{"./..."})
 	if err != nil {
 		fmt.Println(err)
 		return 2
 	}
 	if err := prog.LoadTrusted(filepath.Join(verifDir, "trusted")); err != nil {
+		fmt.Println(err)
+		return 2
+	}
+	if err := prog.ResolveImpls(); err != nil {
 		fmt.Println(err)
 		return 2
 	}
